@@ -146,9 +146,15 @@ def refuse : M String := do
   modify fun w => { w with dead := true }
   return "model-refuses"
 
+/-- `pend I,J,.. <op>`: `<op>` runs while the loops of the pollers in slots I,J,.. are busy in a callback and have an
+unconsumed `Trigger()`.  The pool's behaviour must not depend on it: the model (and the spec oracle) read the line as `<op>`. -/
+def stripPend : List String → List String
+  | "pend" :: _ :: rest => rest
+  | t => t
+
 def stepLine (line : String) : M String := do
   let w ← get
-  let toks := (line.splitOn " ").filter (· ≠ "")
+  let toks := stripPend ((line.splitOn " ").filter (· ≠ ""))
   match toks with
   | "scn" :: _ => set ({} : W); return "scn"
   | _ =>
@@ -301,7 +307,7 @@ structure SW where
 
 def specLine (op impl : String) : StateM SW String := do
   let w ← get
-  let otoks := (op.splitOn " ").filter (· ≠ "")
+  let otoks := stripPend ((op.splitOn " ").filter (· ≠ ""))
   let (ev, d) := match impl.splitOn " ## " with
     | [e, d] => (e, d)
     | _ => (impl, "")
